@@ -273,11 +273,17 @@ func ruleRawCopy(c *Ctx, r *Report, prefix string) {
 					}
 					okCond := (bo.Op == token.LEQ && isCallOf(bo.X, comp) && isCallOf(bo.Y, dlen)) ||
 						(bo.Op == token.GEQ && isCallOf(bo.X, dlen) && isCallOf(bo.Y, comp))
-					if !okCond {
+					// the negated spelling: the relation holds on the false edge of Compressed() > Len()
+					negCond := (bo.Op == token.GTR && isCallOf(bo.X, comp) && isCallOf(bo.Y, dlen)) ||
+						(bo.Op == token.LSS && isCallOf(bo.X, dlen) && isCallOf(bo.Y, comp))
+					if !okCond && !negCond {
 						continue
 					}
 					t := gb.Succs[0]
-					if len(t.Preds) == 1 && t.Dominates(b) {
+					if negCond {
+						t = gb.Succs[1]
+					}
+					if len(t.Preds) == 1 && (t == b || t.Dominates(b)) {
 						guarded = true
 					}
 				}
